@@ -18,7 +18,8 @@ quantify over every interleaving of every number of threads' programs, with any 
 
 NOT proved: that the compiler's observable behaviour is a function of these observations up to renaming (it is
 exercised: `./check C19` runs K∈{2,4,8,16} real compiler threads against single-threaded results), type-variable
-cells (`Arc<RwLock<TypeVar>>`, per compilation), the `Symbol::as_str` lifetime extension (F8), real schedulers.
+cells (`Arc<RwLock<TypeVar>>`, per compilation), real schedulers.  The interner model does NOT cover memory: `Symbol::as_str`
+slices dangle after a reallocation (finding F8, `C19_as_str_slice_dangles`), which is a genuine interference.
 -/
 namespace Mimium.Interner
 variable {α : Type} [DecidableEq α]
@@ -120,5 +121,21 @@ theorem C19_env_guard_race :
     (grun [(0, .enter 10), (1, .enter 20), (0, .read), (0, .exit), (1, .exit)]).env = some 10 ∧
     (grun [(0, .enter 10), (0, .read), (0, .exit)]).reads = [(0, some 10)] ∧
     (grun [(0, .enter 10), (0, .read), (0, .exit)]).env = none := by decide
+
+/-- **finding F8** on the model of `Symbol::as_str`: a slice taken by one thread is left dangling by ANY later interning
+(of any thread) that makes the buffer grow; concrete schedule: A takes `as_str` of a 4-byte name in an 8-byte buffer,
+B interns a 10-byte name, A's slice no longer points into the live allocation. (Exhibited on the real code by
+`c19 asstr` and, once, as a garbled module name in a 16-thread compilation.) -/
+theorem C19_as_str_slice_dangles :
+    let b0 : Buf := ⟨0, 4, 8⟩
+    let sl := b0.asStr 0 4
+    sl.valid b0 ∧ ¬ sl.valid (b0.push 10) := by decide
+
+/-- in general: whenever a push exceeds the capacity, every slice handed out before is invalid afterwards -/
+theorem C19_growth_invalidates_all_slices (b : Buf) (n off k : Nat) (h : b.cap < b.len + n) :
+    ¬ (b.asStr off k).valid (b.push n) := by
+  unfold Buf.push Buf.asStr Slice.valid
+  rw [if_neg (by omega)]
+  simp
 
 end Mimium.SessionLock
